@@ -156,3 +156,36 @@ Proof.
   eapply H_err; [exact I|vm_compute; reflexivity|].
   apply H_nil.
 Qed.
+
+(* ---- whole-field assignment of a repeated field (model.raw_xs = wrapper): WholeField.v -------------------
+   The heap model keeps instance dicts (cached wrapper, cached value views in dict order), wrappers (which Repeated,
+   handler list = the views' _raw_indexes), Repeateds (items, detachable?, still in a store?).  A refused assignment -
+   in particular every wrapper whose Repeated is still attached elsewhere (detach refuses it) - returns the heap it was
+   given: field, cached wrapper, cached views, every handler list and the donor are what they were. *)
+From AB Require Import Prelude PySeq Views WholeField WholeFieldProofs.
+
+Theorem C19_whole_field_refused_atomic :
+  (forall h i w h' e, wstep VRepaired h (WAssign i w) = (h', Err e) -> h' = h)
+  /\ (forall h i w ins W Nd P,
+        WholeField.lookup i (h_insts h) = Some ins -> WholeField.lookup w (h_wrps h) = Some W ->
+        WholeField.lookup (i_field ins) (h_reps h) = Some Nd -> WholeField.lookup (w_rep W) (h_reps h) = Some P ->
+        i_field ins <> w_rep W -> r_live Nd = true -> r_spans P = false ->
+        wstep VRepaired h (WAssign i w) = (h, Err ValueError)).
+Proof. exact whole_field_refused_atomic. Qed.
+
+(* seeded regression C19-m5 (drop_views_of and the cache assignment moved in front of replace_node): the refusal
+   leaves the target's accessor on the SOURCE's wrapper and its views dropped, the field untouched *)
+Theorem C19_whole_field_cache_first_refuted :
+  exists h i w h', Inv h /\ assign VCacheFirst h i w = (h', Err ValueError) /\ h' <> h
+    /\ exists ins ins', WholeField.lookup i (h_insts h) = Some ins /\ WholeField.lookup i (h_insts h') = Some ins'
+         /\ i_field ins' = i_field ins /\ i_wrapper ins' = Some w /\ i_wrapper ins <> Some w
+         /\ i_views ins <> [] /\ i_views ins' = [].
+Proof. exact cache_first_refused_not_atomic. Qed.
+
+(* non-vacuity: in a document with two transactions whose tags/links were read, assigning the second one's (attached)
+   wrapper 3 to the first is refused with nothing changed; a deep copy (wrapper 5) is accepted *)
+Example C19_whole_field_refusal_happens :
+  let h := wrun VRepaired (init_heap ex_its) ex_read in
+  wstep VRepaired h (WAssign 0 3) = (h, Err ValueError)
+  /\ snd (wstep VRepaired (fst (wstep VRepaired h (WCopy 3))) (WAssign 0 5)) = Ok RNone.
+Proof. vm_compute. split; reflexivity. Qed.
